@@ -1006,12 +1006,58 @@ private:
     // crab::CrabStats::count("Interprocedural.num_calling_contexts");
   }
 
+  static void get_fdecl_parameters(const std::vector<variable_t> &inputs,
+                                   const std::vector<variable_t> &outputs,
+                                   std::vector<variable_t> &out) {
+    out.reserve(inputs.size() + outputs.size());
+    out.insert(out.end(), inputs.begin(), inputs.end());
+    out.insert(out.end(), outputs.begin(), outputs.end());
+  }
+
   static void get_fdecl_parameters(const fdecl_t &fdecl,
                                    std::vector<variable_t> &out) {
-    out.reserve(fdecl.get_num_inputs() + fdecl.get_num_outputs());
-    out.insert(out.end(), fdecl.get_inputs().begin(), fdecl.get_inputs().end());
-    out.insert(out.end(), fdecl.get_outputs().begin(),
-               fdecl.get_outputs().end());
+    get_fdecl_parameters(fdecl.get_inputs(), fdecl.get_outputs(), out);
+  }
+
+  // Return true if some formal parameter of fdecl is used at the
+  // callsite cs (as actual parameter or lhs) at a position different
+  // from its own. This can happen because caller and callee can use
+  // the same variable names.
+  static bool formal_used_at_another_position(const callsite_t &cs,
+                                              const fdecl_t &fdecl) {
+    auto used_elsewhere = [&cs](const variable_t &formal, bool is_input,
+                                unsigned pos) {
+      for (unsigned i = 0, e = cs.get_args().size(); i < e; ++i) {
+        if (cs.get_args()[i] == formal && !(is_input && i == pos)) {
+          return true;
+        }
+      }
+      for (unsigned i = 0, e = cs.get_lhs().size(); i < e; ++i) {
+        if (cs.get_lhs()[i] == formal && !(!is_input && i == pos)) {
+          return true;
+        }
+      }
+      return false;
+    };
+    for (unsigned i = 0, e = fdecl.get_inputs().size(); i < e; ++i) {
+      if (used_elsewhere(fdecl.get_inputs()[i], true, i)) {
+        return true;
+      }
+    }
+    for (unsigned i = 0, e = fdecl.get_outputs().size(); i < e; ++i) {
+      if (used_elsewhere(fdecl.get_outputs()[i], false, i)) {
+        return true;
+      }
+    }
+    return false;
+  }
+
+  // Return a variable that is used neither by the caller nor by the
+  // callee. Given the same v it returns always the same variable.
+  static variable_t get_copy(const variable_t &v) {
+    using varname_t = typename variable_t::varname_t;
+    auto &vfac = const_cast<varname_t *>(&(v.name()))->get_var_factory();
+    return variable_t(vfac.get(v.name(), ".inter_copy"), v.get_type());
   }
 
   /**
@@ -1034,9 +1080,22 @@ private:
     // propagate from actual to formal parameters
     CRAB_LOG("inter-restrict",
              errs() << "Unifying formal and actual parameters\n";);
+    std::vector<variable_t> actuals(cs.get_args());
+    if (formal_used_at_another_position(cs, fdecl)) {
+      // Caller and callee share variable names (e.g., foo(b,a) where
+      // foo's formal parameters are (a,b)). The unification must
+      // behave as a parallel assignment so the actual parameters are
+      // first copied into fresh variables. The copies are removed by
+      // the projection below.
+      for (unsigned i = 0, e = fdecl.get_inputs().size(); i < e; ++i) {
+        variable_t copy = get_copy(fdecl.get_inputs()[i]);
+        inter_transformer_helpers<AbsDom>::unify(caller_dom, copy, actuals[i]);
+        actuals[i] = copy;
+      }
+    }
     for (unsigned i = 0, e = fdecl.get_inputs().size(); i < e; ++i) {
       const variable_t &formal = fdecl.get_inputs()[i];
-      const variable_t &actual = cs.get_args()[i];
+      const variable_t &actual = actuals[i];
       if (!(formal == actual)) {
         CRAB_LOG("inter-restrict",
                  errs() << "\t" << formal << ":" << formal.get_type()
@@ -1129,10 +1188,37 @@ private:
                                  << "Caller after forgetting lhs variables="
                                  << caller_dom << "\n";);
 
+    std::vector<variable_t> in_formals(fdecl.get_inputs());
+    std::vector<variable_t> out_formals(fdecl.get_outputs());
+    std::vector<variable_t> sum_out_vars(sum_out_variables);
+    if (formal_used_at_another_position(cs, fdecl)) {
+      // Caller and callee share variable names: a formal parameter
+      // is also a variable of the callsite but it does not denote
+      // the same variable. We move the summary to fresh variables so
+      // that the propagation below behaves as a parallel assignment
+      // and the callee's variables are not confused with the
+      // caller's ones.
+      for (unsigned i = 0, e = in_formals.size(); i < e; ++i) {
+        variable_t copy = get_copy(in_formals[i]);
+        inter_transformer_helpers<AbsDom>::unify(sum_out_dom, copy,
+                                                 in_formals[i]);
+        in_formals[i] = copy;
+      }
+      for (unsigned i = 0, e = out_formals.size(); i < e; ++i) {
+        variable_t copy = get_copy(out_formals[i]);
+        inter_transformer_helpers<AbsDom>::unify(sum_out_dom, copy,
+                                                 out_formals[i]);
+        out_formals[i] = copy;
+      }
+      sum_out_dom.forget(sum_out_variables);
+      sum_out_vars.clear();
+      get_fdecl_parameters(in_formals, out_formals, sum_out_vars);
+    }
+
     // Wire-up outputs: propagate from callee's outputs to caller's
     // lhs of the callsite
-    for (unsigned i = 0, e = fdecl.get_outputs().size(); i < e; ++i) {
-      const variable_t &out_formal = fdecl.get_outputs()[i];
+    for (unsigned i = 0, e = out_formals.size(); i < e; ++i) {
+      const variable_t &out_formal = out_formals[i];
       const variable_t &out_actual = cs.get_lhs()[i];
       if (!(out_formal == out_actual)) {
         CRAB_LOG("inter-extend", crab::outs()
@@ -1161,9 +1247,9 @@ private:
     // Variables that appear both as callsite argument and callee's
     // formal parameter so they shouldn't be forgotten.
     std::vector<variable_t> caller_and_callee_vars;
-    caller_and_callee_vars.reserve(fdecl.get_inputs().size());
-    for (unsigned i = 0, e = fdecl.get_inputs().size(); i < e; ++i) {
-      const variable_t &in_formal = fdecl.get_inputs()[i];
+    caller_and_callee_vars.reserve(in_formals.size());
+    for (unsigned i = 0, e = in_formals.size(); i < e; ++i) {
+      const variable_t &in_formal = in_formals[i];
       if (cs_in_args.count(in_formal) > 0) {
         caller_and_callee_vars.push_back(in_formal);
       } else {
@@ -1192,7 +1278,7 @@ private:
 
     caller_and_callee_vars.insert(caller_and_callee_vars.end(),
                                   cs.get_lhs().begin(), cs.get_lhs().end());
-    auto local_vars = set_difference(sum_out_variables, caller_and_callee_vars);
+    auto local_vars = set_difference(sum_out_vars, caller_and_callee_vars);
     // Forget callee's local variables
     sum_out_dom.forget(local_vars);
 
